@@ -108,14 +108,14 @@ MUTATIONS = [
     ("sn-nested-object-as-array", F, SN_PUSH_OBJ, "                        builder.push_array(strip_nulls_array(item_header, item)?);", 0, STP, "sa_loop1_step"),
     ("sn-scalar-doc-dropped", F, "        _ => buf.extend_from_slice(value),\n    }\n    Ok(())\n}\n\nfn strip_nulls_array", "        _ => buf.extend_from_slice(&value[4..]),\n    }\n    Ok(())\n}\n\nfn strip_nulls_array", 0, STP, "strip_nulls_jsonb_agrees"),
     # build_array / build_object
-    ("ba-object-header", F, "    let header = ARRAY_CONTAINER_TAG | len;", "    let header = OBJECT_CONTAINER_TAG | len;", 0, BAR, "build_array_agrees"),
+    ("ba-object-header", F, "    let header = ARRAY_CONTAINER_TAG | len;", "    let header = OBJECT_CONTAINER_TAG | len;", 0, BAR, "build_array_into_agrees"),
     ("ba-scalar-payload-from-4", F, "                data.extend_from_slice(&value[8..]);", "                data.extend_from_slice(&value[4..]);", 0, BAR, "ba_loop1_step"),
     ("ba-count-not-incremented", F, "        len += 1;\n        buf.extend_from_slice(&encoded_jentry);", "        buf.extend_from_slice(&encoded_jentry);", 0, BAR, "ba_loop1_step"),
     ("ba-container-entry-string-tag", F, "                data.extend_from_slice(value);\n                (CONTAINER_TAG | value.len() as u32).to_be_bytes()", "                data.extend_from_slice(value);\n                (STRING_TAG | value.len() as u32).to_be_bytes()", 0, BAR, "ba_loop1_step"),
     ("bo-key-entry-number-tag", F, "        let encoded_key_jentry = (STRING_TAG | key.len() as u32).to_be_bytes();", "        let encoded_key_jentry = (NUMBER_TAG | key.len() as u32).to_be_bytes();", 0, BOB, "bo_loop1_step"),
     ("bo-key-bytes-not-written", F, "        key_data.extend_from_slice(key.as_bytes());\n", "", 0, BOB, "bo_loop1_step"),
-    ("bo-values-before-keys", F, "    buf.extend_from_slice(&key_data);\n    buf.extend_from_slice(&val_data);", "    buf.extend_from_slice(&val_data);\n    buf.extend_from_slice(&key_data);", 0, BOB, "build_object_agrees"),
-    ("bo-array-header", F, "    let header = OBJECT_CONTAINER_TAG | len;", "    let header = ARRAY_CONTAINER_TAG | len;", 0, BOB, "build_object_agrees"),
+    ("bo-values-before-keys", F, "    buf.extend_from_slice(&key_data);\n    buf.extend_from_slice(&val_data);", "    buf.extend_from_slice(&val_data);\n    buf.extend_from_slice(&key_data);", 0, BOB, "build_object_into_agrees"),
+    ("bo-array-header", F, "    let header = OBJECT_CONTAINER_TAG | len;", "    let header = ARRAY_CONTAINER_TAG | len;", 0, BOB, "build_object_into_agrees"),
     # the delete_by_keypath family
     ("dk-index-from-end-sign", F, "            let idx = if *idx < 0 { len + *idx } else { *idx };", "            let idx = if *idx < 0 { len - *idx } else { *idx };", 0, DKP, "del_arr_step"),
     ("dk-index-len-in-range", F, "            if idx < 0 || idx >= len {\n                return Ok(None);", "            if idx < 0 || idx > len {\n                return Ok(None);", 0, DKP, "del_arr_step"),
@@ -164,6 +164,21 @@ RETENTION = [
      "src/functions.rs::build_array", "unsupported"),
     ("out-of-subset-pop-back", F, "    match keypath.pop_front() {\n        Some(KeyPath::Index(idx)) => {", "    match keypath.pop_back() {\n        Some(KeyPath::Index(idx)) => {", 0,
      "src/functions.rs::delete_jsonb_array_by_keypath", "unsupported"),
+]
+
+# the tree after the repair of `build_array` / `build_object` (bodies in the private `build_array_into` /
+# `build_object_into`, the public names are rollback wrappers): the body of `build_array` is reported under the `_into` key,
+# and a wrapper that leaves the recognised shape must be rejected (NOT translated as the callee's outcome)
+RETENTION_KEY_REPAIRED = {"out-of-subset-rev": "src/functions.rs::build_array_into"}
+RETENTION_REPAIRED = [
+    ("wrapper-truncate-other-length", F, "        buf.truncate(start);", "        buf.truncate(start + 1);", 0,
+     "src/functions.rs::build_array", "unsupported"),
+    ("wrapper-test-inverted", F, "    let res = build_object_into(items, buf);\n    if res.is_err() {", "    let res = build_object_into(items, buf);\n    if res.is_ok() {", 0,
+     "src/functions.rs::build_object", "unsupported"),
+    ("wrapper-other-buffer-start", F, "    let start = buf.len();\n    let res = build_array_into(items, buf);", "    let start = buf.len() - 1;\n    let res = build_array_into(items, buf);", 0,
+     "src/functions.rs::build_array", "unsupported"),
+    ("wrapper-result-replaced", F, "        buf.truncate(start);\n    }\n    res\n}\n\nfn build_object_into", "        buf.truncate(start);\n    }\n    Ok(())\n}\n\nfn build_object_into", 0,
+     "src/functions.rs::build_object", "unsupported"),
 ]
 
 
@@ -280,7 +295,10 @@ def main():
                     open(os.path.join(tmp, f), "w", encoding="utf-8").write(originals[f])
 
             # (a') retention of committed blocks
-            for mid, file, old, new, occ, key, want in RETENTION:
+            repaired = "fn build_array_into" in open(os.path.join(tmp, F), encoding="utf-8").read()
+            retention = [(mid, file, old, new, occ, RETENTION_KEY_REPAIRED.get(mid, key) if repaired else key, want)
+                         for mid, file, old, new, occ, key, want in RETENTION] + (RETENTION_REPAIRED if repaired else [])
+            for mid, file, old, new, occ, key, want in retention:
                 saved = mutate(tmp, file, old, new, occ)
                 try:
                     text, st = run_tool(tmp, out)
